@@ -16,6 +16,7 @@ def runBlock (hdr : String) (lines : Array String) : String :=
   match (hdr.splitOn " ").filter (· ≠ "") with
   | "S" :: "timeout" :: _ => (validate timeoutModel lines).render
   | "S" :: "oracle" :: _ => runOracle lines
+  | "S" :: "replay" :: "poll" :: _ => Replay.Poll.run ((hdr.splitOn " ").filter (· ≠ "")) lines
   | "S" :: "replay" :: "retry" :: _ => Replay.Retry.run lines
   | "S" :: "replay" :: "throttle" :: _ => Replay.Throttle.run ((hdr.splitOn " ").filter (· ≠ "")) lines
   | _ => "INCONCLUSIVE 0 unknown model: " ++ hdr
